@@ -452,11 +452,61 @@ def library_objects():
     return objs
 
 
+def x509_objects():
+    """report objects holding X.509 certificates (asn1crypto: outside the model, so only the implementation-side
+    statements and the cross-process / serialisation-order comparison apply): CA, leaf, chain, self-signed, and the
+    same certificates re-issued as X.509 v1 / v3 without an extensions field"""
+    if 'x509' in _MEMO:
+        return _MEMO['x509']
+    import asn1crypto.pem
+    import asn1crypto.x509
+    from cryptodatahub.ssh.algorithm import SshHostKeyAlgorithm
+    from cryptoparser.common.x509 import PublicKeyX509
+    from cryptoparser.ssh.key import SshX509CertificateChain
+    _, _, _, _, _, Holder = _test_classes()
+    certs = os.path.join(core.REPO, 'test', 'common', 'certs')
+
+    def der(name):
+        with open(os.path.join(certs, name), 'rb') as f:
+            return asn1crypto.pem.unarmor(f.read())[2]
+
+    def bare(data, version):
+        certificate = asn1crypto.x509.Certificate.load(data)
+        tbs = certificate['tbs_certificate']
+        fields = {n: tbs[n] for n in ('serial_number', 'signature', 'issuer', 'validity', 'subject', 'subject_public_key_info')}
+        fields['version'] = version
+        return asn1crypto.x509.Certificate({'tbs_certificate': asn1crypto.x509.TbsCertificate(fields),
+                                            'signature_algorithm': certificate['signature_algorithm'],
+                                            'signature_value': certificate['signature_value']}).dump()
+
+    objs = collections.OrderedDict()
+    try:
+        root, leaf, snake = der('rsa8192.badssl.com_root_ca.crt'), der('rsa8192.badssl.com_certificate.crt'), der('snakeoil_cert.pem')
+        alg = SshHostKeyAlgorithm.X509V3_SSH_RSA
+        key = PublicKeyX509.from_der
+        objs['x509-ca'] = Holder([SshX509CertificateChain(alg, key(root), [], [])])
+        objs['x509-leaf'] = Holder([SshX509CertificateChain(alg, key(leaf), [], [])])
+        objs['x509-leaf-with-issuer'] = Holder([SshX509CertificateChain(alg, key(leaf), [key(root)], [])])
+        objs['x509-self-signed-ocsp'] = Holder([SshX509CertificateChain(alg, key(snake), [], [b'\x00\x01'])])
+        objs['x509-v1-no-extensions'] = Holder([SshX509CertificateChain(alg, key(bare(snake, 'v1')), [], [])])
+        objs['x509-v1-ca-no-extensions'] = Holder([SshX509CertificateChain(alg, key(bare(root, 'v1')), [], [])])
+        objs['x509-v3-no-extensions-field'] = Holder([SshX509CertificateChain(alg, key(bare(snake, 'v3')), [], [])])
+        objs['x509-key-ca'] = Holder(key(root))
+        objs['x509-key-leaf'] = Holder(key(leaf))
+    except Exception as e:  # pylint: disable=broad-except
+        objs = collections.OrderedDict()
+        _MEMO['x509-error'] = repr(e)
+    _MEMO['x509'] = objs
+    return objs
+
+
 # ----------------------------------------------------------------------------------------------------------------
 # oracles
 # ----------------------------------------------------------------------------------------------------------------
 
 def build(case):
+    if case['kind'] == 'x509':
+        return x509_objects()[case['name']]
     if case['kind'] == 'corpus':
         return build_corpus_object(case)
     if case['kind'] == 'built':
@@ -473,6 +523,8 @@ _TERMS = {}
 
 def term_of(case):
     key = json.dumps(case, sort_keys=True)
+    if case.get('kind') == 'x509':
+        return Unsupported('x509 certificate (asn1crypto)')
     if key not in _TERMS:
         try:
             _TERMS[key] = abstract(build(case))
@@ -687,6 +739,10 @@ def all_cases(run):
         cases.append({'kind': 'corpus', 'cls': corpus.class_path(cls), 'hex': data.hex()})
     for name in library_objects():
         cases.append({'kind': 'library', 'name': name})
+    for name in x509_objects():
+        cases.append({'kind': 'x509', 'name': name})
+    if 'x509-error' in _MEMO:
+        run.notes.append('x509 report objects could not be built: ' + _MEMO['x509-error'])
     for name in constructed_objects():
         case = {'kind': 'built', 'name': name}
         if name in ('mixed-keys', 'floats-nonfinite'):
@@ -786,7 +842,7 @@ def run(run, driver_ok=True, deep=False):  # pylint: disable=redefined-outer-nam
         except Exception:  # pylint: disable=broad-except
             run.count('distinct_keys', 'not evaluated (raises)')
     # other processes: hash seeds and serialisation orders
-    sample = [c for c in usable if c['kind'] != 'corpus']
+    sample = [c for c in usable if c['kind'] != 'corpus'] + [c for c in cases if c['kind'] == 'x509']
     corp = [c for c in usable if c['kind'] == 'corpus']
     sample += corp if run.tier != 'quick' else run.rng.sample(corp, min(len(corp), 250))
     cross_process(run, sample + pairs)
